@@ -20,7 +20,8 @@ def kirin_namespace(**extra):
     from kirin.dialects import ilist
     from bloqade.shuttle import action, spec, schedule, gate, init, measure, filled
     from bloqade.shuttle.prelude import move, tweezer
-    ns = dict(tweezer=tweezer, move=move, action=action, grid=grid, spec=spec, ilist=ilist, Any=Any,
+    from typing import Literal
+    ns = dict(tweezer=tweezer, move=move, action=action, grid=grid, spec=spec, ilist=ilist, Any=Any, Literal=Literal,
               schedule=schedule, gate=gate, init=init, measure=measure, filled=filled)
     ns.update(extra)
     return ns
